@@ -248,7 +248,7 @@ class Run:
         return self.inconclusive_(lid, "kani %s (exit %s): %s" % (r["status"], r["exit"], r.get("log_tail", "")[-800:]))
 
     # -- Engine Z ------------------------------------------------------------------------------
-    def smt(self, lid, query, get=(), claim="", witness=None, timeout=60, vacuity=None, solver="z3-new", cross=None):
+    def smt(self, lid, query, get=(), claim="", witness=None, timeout=60, vacuity=None, solver="z3-new", cross=None, vacuous_ok=False):
         """Existential query: unsat => lemma holds.  sat => `witness(model)` must replay it against the real
         code and return (role, what, payload) or None when it does not reproduce.
         vacuity: a query (the domain without the negated lemma) that must be sat."""
@@ -261,6 +261,10 @@ class Run:
             rv = smt_run.solve(vacuity, solver=solver, timeout=timeout)
             self.queries += 1
             self.solver_time += rv["time_s"]
+            if rv["status"] == "unsat" and vacuous_ok:
+                self.outcomes.append(Outcome(lid, "holds", note="vacuous"))
+                log("  [holds] %s (domain empty: nothing to check)" % lid)
+                return None
             if rv["status"] != "sat":
                 return self.inconclusive_(lid, "vacuity guard: domain query is %s" % rv["status"])
         if r["status"] == "unsat":
